@@ -149,16 +149,17 @@ def lake_build(targets=()):
         return r.returncode, r.stdout
 
 
-def driver_exe():
-    return os.path.join(LEAN, ".lake", "build", "bin", "vdriver")
+def driver_exe(engine):
+    return os.path.join(LEAN, ".lake", "build", "bin", "vd-" + engine.lower())
 
 
 def run_driver(engine, stdin_text, args=(), timeout=300):
-    exe = driver_exe()
-    r = subprocess.run([exe, engine] + list(args), input=stdin_text, stdout=subprocess.PIPE,
+    """Run the Lean line-protocol driver of one property (engine = 'c05', ...) on stdin_text."""
+    exe = driver_exe(engine)
+    r = subprocess.run([exe] + list(args), input=stdin_text, stdout=subprocess.PIPE,
                        stderr=subprocess.PIPE, text=True, timeout=timeout)
     if r.returncode != 0:
-        raise RuntimeError("vdriver %s failed rc=%d: %s" % (engine, r.returncode, r.stderr[-2000:]))
+        raise RuntimeError("driver %s failed rc=%d: %s" % (engine, r.returncode, r.stderr[-2000:]))
     return r.stdout
 
 
@@ -207,7 +208,7 @@ def audit(prop):
     """Build the property's theorem module, run `#print axioms` on each listed theorem.
     Returns dict {ok, theorems:[{name, axioms}], problems:[...]}"""
     res = {"ok": True, "theorems": [], "problems": []}
-    rc, out = lake_build(["LibfiveTheorems.%s" % prop, "vdriver"])
+    rc, out = lake_build(["LibfiveTheorems.%s" % prop, "vd-%s" % prop.lower()])
     if rc != 0:
         res["ok"] = False
         res["problems"].append({"kind": "lake-build-failed", "output": out[-6000:]})
